@@ -93,122 +93,158 @@ def load_known():
         return json.load(fh)
 
 
-def run(ruleset, F, tier, seed, t0, extra_rules=(), checker_cmd='', write_evidence=True):
-    """Evaluate all rules; print report; write evidence; return exit code."""
-    prop = ruleset.prop
-    known = load_known()
-    open_keys = {k['key']: k for k in known.get('open', []) if k['property'] == prop}
-    results = []
-    infra_errors = []
-    all_viol = []
-    for r in list(ruleset.rules) + list(extra_rules):
-        if r.tier == 'thorough' and tier != 'thorough':
-            continue
-        cx = Ctx(F, prop, r)
-        try:
-            r.fn(cx)
-            if not cx.sites and not cx.cells:
-                raise AnchorMissing('%s: rule examined no site (vacuous)' % r.id)
-            if cx.pending and not cx.violations:
-                raise AnchorMissing('; '.join(cx.pending))
-        except AnchorMissing as e:
-            if cx.violations:
-                # the rule had already established violations before an anchor went missing
-                print('ANCHOR-MISSING (after violations) %s' % e)
-                results.append((r, cx))
-                all_viol.extend(cx.violations)
+class Run:
+    """One check invocation: rules evaluated over one or more fact sets (feature
+    configurations), optional self-test results, one evidence file."""
+
+    def __init__(self, ruleset, tier, seed, t0, checker_cmd='', write_evidence=True):
+        self.rs = ruleset
+        self.prop = ruleset.prop
+        self.tier = tier
+        self.seed = seed
+        self.t0 = t0
+        self.cmd = checker_cmd
+        self.write = write_evidence
+        known = load_known()
+        self.open_keys = {k['key']: k for k in known.get('open', []) if k['property'] == self.prop}
+        self.results = []       # (config, rule, cx)
+        self.infra = []
+        self.skipped = []
+        self.viol = {}          # key -> violation (deduplicated across configs)
+        self.configs = {}
+        self.selftest = []
+        self.F0 = None
+
+    def evaluate(self, F, config, lenient=False):
+        if self.F0 is None:
+            self.F0 = F
+        self.configs[config] = F.crates
+        for r in self.rs.rules:
+            if r.tier == 'thorough' and self.tier != 'thorough':
                 continue
-            infra_errors.append(str(e))
-            print('ANCHOR-MISSING %s' % e)
-            continue
-        except Exception:
-            infra_errors.append('%s: %s' % (r.id, traceback.format_exc()))
-            print('RULE-ERROR %s\n%s' % (r.id, traceback.format_exc()))
-            continue
-        results.append((r, cx))
-        all_viol.extend(cx.violations)
+            if r.kind == 'K-WITNESS' and config != 'default':
+                continue
+            cx = Ctx(F, self.prop, r)
+            try:
+                r.fn(cx)
+                if not cx.sites and not cx.cells:
+                    raise AnchorMissing('%s: rule examined no site (vacuous)' % r.id)
+                if cx.pending and not cx.violations:
+                    raise AnchorMissing('; '.join(cx.pending))
+            except AnchorMissing as e:
+                if cx.violations:
+                    print('ANCHOR-MISSING (after violations) [%s] %s' % (config, e))
+                elif lenient:
+                    self.skipped.append('%s [%s]: %s' % (r.id, config, str(e)[:160]))
+                    continue
+                else:
+                    self.infra.append('[%s] %s' % (config, e))
+                    print('ANCHOR-MISSING [%s] %s' % (config, e))
+                    continue
+            except Exception:
+                self.infra.append('[%s] %s: %s' % (config, r.id, traceback.format_exc()))
+                print('RULE-ERROR [%s] %s\n%s' % (config, r.id, traceback.format_exc()))
+                continue
+            self.results.append((config, r, cx))
+            for v in cx.violations:
+                v['config'] = config
+                self.viol.setdefault(v['key'], v)
+            status = 'ok' if not cx.violations else 'VIOLATED'
+            print('%-9s %-10s %-8s sites=%-4d fns=%-3d %s%s' % (r.id, r.kind, status, len(cx.sites) + cx.cells,
+                                                              len(cx.functions), r.title,
+                                                              '' if config == 'default' else '  [%s]' % config))
 
-    new_viol = [v for v in all_viol if v['key'] not in open_keys]
-    known_hit = [v for v in all_viol if v['key'] in open_keys]
+    def add_selftest(self, name, status, detail=''):
+        self.selftest.append({'variant': name, 'status': status})
+        if status != 'DETECTED':
+            self.infra.append('self-test: seeded variant %s was %s %s' % (name, status, detail[-300:]))
+            print('SELFTEST-FAILED %s: %s' % (name, status))
 
-    replay_dir = os.path.join(VERIF, 'evidence', 'replay')
-    os.makedirs(replay_dir, exist_ok=True)
-    for r, cx in results:
-        status = 'ok' if not cx.violations else 'VIOLATED'
-        print('%-9s %-10s %-8s sites=%-4d fns=%-3d %s' % (r.id, r.kind, status, len(cx.sites) + cx.cells,
-                                                         len(cx.functions), r.title))
-    seen_known = set()
-    for v in known_hit:
-        if v['key'] in seen_known:
-            continue
-        seen_known.add(v['key'])
-        print('KNOWN-FINDING: property=%s %s [%s] %s' % (prop, v['key'], v.get('loc'), v['message']))
-    for n, v in enumerate(new_viol):
-        rp = os.path.join(replay_dir, '%s_%d.json' % (prop, n))
-        if write_evidence:
-            with open(rp, 'w') as fh:
-                json.dump(v, fh, indent=1)
-        print('  rule %s (%s) in %s at %s: %s' % (v['rule'], v['kind'], v['function'], v.get('loc'), v['message']))
-        if v.get('path'):
-            print('    path: %s' % v['path'])
-        print('VIOLATION property=%s replay=%s' % (prop, rp))
-
-    obligations = len(results) + len(infra_errors)
-    discharged = sum(1 for r, cx in results if not [v for v in cx.violations if v['key'] not in open_keys])
-    sites = sum(len(cx.sites) + cx.cells for r, cx in results)
-    distinct = len({s for r, cx in results for s in cx.sites}) + sum(cx.cells for r, cx in results)
-    fns = set()
-    for r, cx in results:
-        fns |= cx.functions
-    samples = []
-    for r, cx in results:
-        for s in cx.samples[:2]:
-            samples.append({'rule': r.id, 'site': s})
-    if not samples:
-        samples = [{'rule': r.id, 'site': cx.sites[0]} for r, cx in results if cx.sites][:5]
-    ev = {
-        'property_id': prop,
-        'tier': tier,
-        'seed': seed,
-        'level': 'other',
-        'coverage': {
-            'explanation': ruleset.explanation,
-            'not_decided': ruleset.not_decided,
-            'obligations': obligations,
-            'discharged': discharged,
-            'evaluations': max(sites, 1),
-            'distinct_nontrivial': distinct,
-            'rule': 'one evaluation = one program site (call, assignment, aggregate, match arm, table cell, '
-                    'type node) examined by a rule instance on the facts extracted from /repo in this run; '
-                    'distinct = distinct site descriptors; a site is non-trivial because it matched a rule '
-                    'anchor (resolved callee/type/field), not a text pattern',
-            'samples': samples,
-            'rules': [{'id': r.id, 'kind': r.kind, 'title': r.title, 'sites': len(cx.sites) + cx.cells,
-                       'functions': sorted(cx.functions)[:12], 'violations': len(cx.violations)}
-                      for r, cx in results],
-            'functions_analysed': len(fns),
-            'bodies_in_scope': len(F.bodies),
-            'crates': F.crates,
-            'checker_cmd': checker_cmd,
-            'trusted_base': ['rustc nightly HIR/MIR construction and type checking (facts come from the '
-                             'compiler, not from text)', 'reference tables and allow-lists in /verif/rules/%s.py'
-                             % prop] + ruleset.trusted,
-            'exhaustive': False,
-            'known_findings': sorted(seen_known),
-            'infrastructure_errors': infra_errors,
-        },
-        'assumptions': ruleset.assumptions,
-        'wall_s': round(time.time() - t0, 2),
-        'violations': len(new_viol),
-    }
-    if write_evidence:
-        os.makedirs(os.path.join(VERIF, 'evidence'), exist_ok=True)
-        with open(os.path.join(VERIF, 'evidence', '%s.json' % prop), 'w') as fh:
-            json.dump(ev, fh, indent=1)
-    print('%s: %d rules, %d discharged, %d sites, %d functions, %d known findings, %d new violations, %d infra errors'
-          % (prop, obligations, discharged, sites, len(fns), len(seen_known), len(new_viol), len(infra_errors)))
-    if new_viol:
-        return 1
-    if infra_errors:
-        return 2
-    return 0
+    def finish(self):
+        prop = self.prop
+        new_viol = [v for k, v in self.viol.items() if k not in self.open_keys]
+        known_hit = [v for k, v in self.viol.items() if k in self.open_keys]
+        replay_dir = os.path.join(VERIF, 'evidence', 'replay')
+        if self.write:
+            os.makedirs(replay_dir, exist_ok=True)
+        for v in known_hit:
+            print('KNOWN-FINDING: property=%s %s [%s] %s' % (prop, v['key'], v.get('loc'), v['message']))
+        for n, v in enumerate(new_viol):
+            rp = os.path.join(replay_dir, '%s_%d.json' % (prop, n))
+            if self.write:
+                with open(rp, 'w') as fh:
+                    json.dump(v, fh, indent=1)
+            print('  rule %s (%s) in %s at %s: %s' % (v['rule'], v['kind'], v['function'], v.get('loc'), v['message']))
+            if v.get('path'):
+                print('    path: %s' % v['path'])
+            print('VIOLATION property=%s replay=%s' % (prop, rp))
+        rules_seen = {}
+        for config, r, cx in self.results:
+            d = rules_seen.setdefault(r.id, {'id': r.id, 'kind': r.kind, 'title': r.title, 'sites': 0, 'functions': set(),
+                                             'violations': 0, 'configs': []})
+            d['sites'] = max(d['sites'], len(cx.sites) + cx.cells)
+            d['functions'] |= cx.functions
+            d['violations'] = max(d['violations'], len(cx.violations))
+            d['configs'].append(config)
+        obligations = len(rules_seen) + len(self.infra)
+        bad_rules = {v['rule'] for v in new_viol}
+        discharged = sum(1 for rid in rules_seen if rid not in bad_rules)
+        default_res = [(r, cx) for config, r, cx in self.results if config == 'default'] or [(r, cx) for c, r, cx in self.results]
+        sites = sum(len(cx.sites) + cx.cells for r, cx in default_res)
+        distinct = len({s for r, cx in default_res for s in cx.sites}) + sum(cx.cells for r, cx in default_res)
+        fns = set()
+        for r, cx in default_res:
+            fns |= cx.functions
+        samples = []
+        for r, cx in default_res:
+            for s_ in cx.samples[:2]:
+                samples.append({'rule': r.id, 'site': s_})
+        if len(samples) < 3:
+            samples += [{'rule': r.id, 'site': cx.sites[0]} for r, cx in default_res if cx.sites][:6]
+        F = self.F0
+        ev = {
+            'property_id': prop,
+            'tier': self.tier,
+            'seed': self.seed,
+            'level': 'other',
+            'coverage': {
+                'explanation': self.rs.explanation,
+                'not_decided': self.rs.not_decided,
+                'obligations': obligations,
+                'discharged': discharged,
+                'evaluations': max(sites, 1),
+                'distinct_nontrivial': distinct,
+                'rule': 'one evaluation = one program site (call, assignment, aggregate, match arm, table cell, '
+                        'type node) examined by a rule instance on the facts extracted from /repo in this run; '
+                        'distinct = distinct site descriptors; a site is non-trivial because it matched a rule '
+                        'anchor (resolved callee/type/field), not a text pattern',
+                'samples': samples,
+                'rules': [dict(d, functions=sorted(d['functions'])[:12]) for d in rules_seen.values()],
+                'functions_analysed': len(fns),
+                'bodies_in_scope': len(F.bodies) if F else 0,
+                'feature_configurations': self.configs,
+                'rules_skipped_in_partial_configurations': self.skipped,
+                'seeded_variant_selftest': self.selftest,
+                'checker_cmd': self.cmd,
+                'trusted_base': ['rustc nightly HIR/MIR construction and type checking (facts come from the '
+                                 'compiler, not from text)', 'reference tables and allow-lists in /verif/rules/%s.py'
+                                 % prop] + self.rs.trusted,
+                'exhaustive': False,
+                'known_findings': sorted(v['key'] for v in known_hit),
+                'infrastructure_errors': self.infra,
+            },
+            'assumptions': self.rs.assumptions,
+            'wall_s': round(time.time() - self.t0, 2),
+            'violations': len(new_viol),
+        }
+        if self.write:
+            os.makedirs(os.path.join(VERIF, 'evidence'), exist_ok=True)
+            with open(os.path.join(VERIF, 'evidence', '%s.json' % prop), 'w') as fh:
+                json.dump(ev, fh, indent=1)
+        print('%s: %d rules, %d discharged, %d sites, %d functions, %d known findings, %d new violations, %d infra errors'
+              % (prop, obligations, discharged, sites, len(fns), len(known_hit), len(new_viol), len(self.infra)))
+        if new_viol:
+            return 1
+        if self.infra:
+            return 2
+        return 0
